@@ -256,6 +256,24 @@ def check_dispatcher(ctx: Ctx) -> None:
     ctx.ob("13.1-submit", con, bool(ok), "every index 0..n_tasks-1 must be submitted exactly once (pop until the task list is empty)", node=(wl or [f])[0])
     ok = len(tasks) == 1 and len(range_args(tasks[0].value)) == 1 and is_n_tasks(range_args(tasks[0].value)[0])
     ctx.ob("13.1-submit", con, ok, "the number of tasks is the number of inputs", node=(tasks or [f])[0])
+    # the two queues belong to THIS execution: answers left in a queue by an execution that was interrupted (an exception
+    # re-raised while other tasks were still running) would otherwise be collected by the next one, at their old indices
+    n_q = 0
+    for q in ("queue_in", "queue_out"):
+        defs = [s_ for s_ in stmts_of(f) if isinstance(s_, ast.Assign) and any(q in [dotted(e_) for e_ in (t.elts if isinstance(t, ast.Tuple) else [t])] for t in s_.targets)]
+        okq = bool(defs)
+        for d in defs:
+            tg = d.targets[0]
+            vals = [d.value]
+            if isinstance(tg, ast.Tuple):
+                vals = [v_ for e_, v_ in zip(tg.elts, d.value.elts)] if isinstance(d.value, ast.Tuple) and len(d.value.elts) == len(tg.elts) else [d.value]
+                if len(vals) == len(tg.elts):
+                    vals = [v_ for e_, v_ in zip(tg.elts, vals) if dotted(e_) == q]
+            for v in vals:
+                alts = sv.exprs(v) if cfg.has(d) else []
+                okq = okq and bool(alts) and all(isinstance(a_, ast.Call) and last_attr(a_) in ("Queue", "JoinableQueue", "SimpleQueue") for a_ in alts)
+        n_q += 1
+        ctx.ob("13.11-fresh-queues", con, okq, f"`{q}` must be a queue created by this call of execute (manager.Queue() / queue.Queue()): a queue kept on the instance carries the unanswered tasks and uncollected answers of an interrupted execution into the next one", node=(defs or [f])[0], stmt=f"{q} is created in execute")
     # collection
     gets = [s for s in stmts_of(f) if isinstance(s, ast.Assign) and isinstance(s.value, ast.Call) and dotted(s.value.func) == "queue_out.get" and isinstance(s.targets[0], ast.Tuple)]
     ctx.need(len(gets) == 1 and len(gets[0].targets[0].elts) == 2, "execute: `index, output = queue_out.get()` not found")
